@@ -1,8 +1,8 @@
 """Lean emitter for the decision trees produced by symexec."""
 from fractions import Fraction
 
-from symexec import (Sc, Bo, Obj, SList, SOpt, Leaf, Let, Branch, Unsupported, to_sc,
-                     to_bo, is_num)
+from symexec import (Sc, Bo, Si, Obj, SList, SOpt, Leaf, Let, Branch, Unsupported, to_sc,
+                     to_bo, to_si, is_num)
 from mtypes import STRUCTS, RESULT_CLASSES, parse_type, lean_type
 
 
@@ -41,6 +41,22 @@ def sexpr(e):
         return '(if %s then %s else %s)' % (pexpr(e[1]), sexpr(e[2]), sexpr(e[3]))
     if k == 'raw':
         return e[1]
+    # ---- integer expressions (Lean `Int`)
+    if k == 'ivar':
+        return e[1]
+    if k == 'ilit':
+        return '(%d : Int)' % e[1] if e[1] >= 0 else '(-%d : Int)' % (-e[1])
+    if k in ('iadd', 'isub', 'imul', 'imod', 'ifloordiv'):
+        op = {'iadd': '+', 'isub': '-', 'imul': '*', 'imod': '%', 'ifloordiv': '/'}[k]
+        return '(%s %s %s)' % (sexpr(e[1]), op, sexpr(e[2]))
+    if k == 'ineg':
+        return '(-%s)' % sexpr(e[1])
+    if k == 'iabs':
+        return '|%s|' % sexpr(e[1])
+    if k == 'iite':
+        return '(if %s then %s else %s)' % (pexpr(e[1]), sexpr(e[2]), sexpr(e[3]))
+    if k == 'icast':
+        return '((%s : Int) : α)' % sexpr(e[1])
     raise Unsupported('scalar expr %r' % (e,))
 
 
@@ -99,6 +115,8 @@ def value_term(v, t, index):
     if t in ('N', 'I'):
         if isinstance(v, int) and not isinstance(v, bool):
             return '(%d)' % v
+        if t == 'I' and isinstance(v, Si):
+            return sexpr(v.e)
         raise Unsupported('expected integer result, got %r' % (v,))
     if isinstance(t, str):
         if isinstance(v, Obj):
@@ -114,6 +132,10 @@ def value_term(v, t, index):
             extra = [sl for sl in v.slots if sl not in [x[2] for x in STRUCTS[t]]]
             if t in __import__('mtypes').SLOT_COMPLETE and extra:
                 raise Unsupported('result has slots outside the model: %s' % extra)
+            if t in __import__('mtypes').SLOT_COMPLETE and getattr(v, 'cache_unmodelled',
+                                                                   False):
+                raise Unsupported('result object whose memo state is not modelled (a memo '
+                                  'read was moved out of a loop)')
             if len(parts) > 5:
                 return '({\n      ' + ',\n      '.join(
                     '%s := %s' % (f[0], pt) for f, pt in zip(STRUCTS[t], parts)) + \
@@ -179,6 +201,9 @@ def emit_tree(node, ret, index, indent, err_as_none=False):
                 emit_tree(node.child, ret, index, indent, err_as_none)
         if node.kind == 'raw':
             return pad + 'let %s := %s\n' % (node.name, node.expr) + \
+                emit_tree(node.child, ret, index, indent, err_as_none)
+        if node.kind == 'I':
+            return pad + 'let %s : Int := %s\n' % (node.name, sexpr(node.expr)) + \
                 emit_tree(node.child, ret, index, indent, err_as_none)
         raise Unsupported('let kind %s' % node.kind)
     if isinstance(node, Branch):
